@@ -13,6 +13,8 @@ class C { let n: N; pass ":"; xs: /[ab]/{n}; requires `len(xs) == n`; m: `n + 1`
 class Z { o: Opt("a") }
 class R { head: D; rest: Opt(R) }
 Rpt(item, k) = item{k}
+Id(e) = e
+Sh(x) = Id([(let x = D in `x`), `x`])
 class F { n: N; ws: Rpt(/[ab]/, n); let m: N; more: Opt(Rpt(item="!", k=m)) }
 '''
 VARS = ['x', 'y', 'n']
@@ -140,6 +142,13 @@ SHADOW_FIXED = [
     r'let x = W in [(let x = (let x = N in `x + 1`) in `x`), `x`]',
     r'let x = (let x = D in (let x = `x` in `x`)) in [`x`, (let x = W in `x`)?, `x`]',
     r'[(let x = (let x = N in "a"{x}) in `x`)*, W?]',
+    # a re-binding let inside a COMPOUND ARGUMENT of a call (such an argument is compiled on its own): the outer binding
+    # - a let, a parameter - is back in force after it
+    r'let x = W in Id([(let x = D in `x`), `x`])',
+    r'let x = W in [Id([(let x = D in `x`)*, `x`]), `x`]',
+    r'Sh(`7`)',
+    r'let n = N in Id([(let n = N in "a"{n}), "b"{n}])',
+    r'let x = W in Rpt([(let x = D in `x`), `x`], `1`)',
 ]
 CLASS_FIXED = [
     ('class T { a: "a"; b: (let a = "b" in `a`); c: `a` }', 'T', True),
